@@ -33,6 +33,9 @@ Record enc_order (en : enc) : Prop := {
       In (sg_expr s') (subterms e) -> pos (u_init (sg_uses s')) = true;
   eo_next_root : forall e s', In e (next_exprs (e_sys en)) -> In s' (e_sigs en) ->
       In (sg_expr s') (subterms e) -> pos (u_next (sg_uses s')) = true;
+  (** a signal with a positive init count is a sub-expression of some init expression *)
+  eo_init_sub : forall s, In s (e_sigs en) -> pos (u_init (sg_uses s)) = true ->
+      exists e, In e (init_exprs (e_sys en)) /\ In (sg_expr s) (subterms e);
   (** a signal that is a symbol is an input; inputs have no other form *)
   eo_symbol_input : forall s, In s (e_sigs en) -> sg_input s = is_symbol (sg_expr s)
 }.
